@@ -293,7 +293,12 @@ theorem wAllocate_self {s : State} {i : Nat} {wi : Wrapper} (hi : s.wr i = some 
 theorem invS_fill {s : State} (h : InvS s) {i : Nat} {wi : Wrapper} (hi : s.wr i = some wi)
     (hsi : wi.self = none) (sz : Nat) (hsz : ownsReferencedObject sz = true) (v t : Nat)
     (ev : Nat → Ev) :
-    InvS (constructAt (wAllocate s i sz) (fillLoc s i sz) v t ev) := by
+    InvS (constructAt (wAllocate s i sz) (fillLoc s i sz) v t ev) ∧
+    (∃ w', (constructAt (wAllocate s i sz) (fillLoc s i sz) v t ev).wr i = some w' ∧
+      w'.self = some (fillLoc s i sz) ∧ w'.alloc = wi.alloc ∧ w'.size = sz) ∧
+    (∀ j, j ≠ i → (constructAt (wAllocate s i sz) (fillLoc s i sz) v t ev).wr j = s.wr j) ∧
+    objAt (constructAt (wAllocate s i sz) (fillLoc s i sz) v t ev) (fillLoc s i sz) =
+      some ⟨s.nextId, v, t⟩ := by
   have hb : wi.bufObj = none := (h.wok i wi hi).1 hsi
   have hnb : ∀ b, (s.blk b).live = true → (s.blk b).owner = i → False := by
     intro b hb' ho; have := owner_points h hi hb' ho; rw [hsi] at this; cases this
@@ -302,6 +307,7 @@ theorem invS_fill {s : State} (h : InvS s) {i : Nat} {wi : Wrapper} (hi : s.wr i
   · simp only [hsm, ite_true, modW, hi, constructAt, usable, upd_same, Option.isSome_some,
       Bool.not_true, Bool.false_eq_true, ite_false, objAt, hb, Option.isSome_none, setObj,
       upd_upd, emit]
+    refine ⟨?_, ⟨_, rfl, rfl, rfl, rfl⟩, fun j hj => by simp [upd, hj], by simp⟩
     have hI := inv_setSlot h (i := i)
       { self := some (.buf i), size := sz, alloc := wi.alloc, vtTy := wi.vtTy,
         bufObj := some ⟨s.nextId, v, t⟩ }
@@ -312,6 +318,7 @@ theorem invS_fill {s : State} (h : InvS s) {i : Nat} {wi : Wrapper} (hi : s.wr i
     simp only [hsm, ite_false, heapAlloc, emit, modW, hi, constructAt, usable, upd_same,
       Bool.not_true, Bool.false_eq_true, objAt, Option.isSome_none, setObj, upd_upd, getW,
       Option.getD_some]
+    refine ⟨?_, ⟨_, rfl, rfl, rfl, rfl⟩, fun j hj => by simp [upd, hj], by simp⟩
     have hI := invS_newBlock h hi hsi
       { self := some (.blk s.nblk), size := sz, alloc := wi.alloc, vtTy := wi.vtTy,
         bufObj := wi.bufObj }
@@ -531,39 +538,56 @@ theorem objAt_wAllocate {s : State} (h : InvS s) (i sz : Nat) (l : Loc) :
     | env k => rfl
 
 /-- `do_copy_assign` into an empty-handed wrapper (incl. the branch where the payload's copy
-    constructor throws and the guard returns the storage). -/
+    constructor throws and the guard returns the storage: then the wrapper is left empty). -/
 theorem invS_doCopyAssign {s : State} (h : InvS s) {i k : Nat} {wi wk : Wrapper}
     (hi : s.wr i = some wi) (hsi : wi.self = none) (hk : s.wr k = some wk) (hik : i ≠ k)
-    (c thr : Bool) : InvS (Alpaqa.C16.doCopyAssign s c i k thr).1 := by
+    (c thr : Bool) :
+    InvS (Alpaqa.C16.doCopyAssign s c i k thr).1 ∧
+    ((Alpaqa.C16.doCopyAssign s c i k thr).2 = .excCopy →
+      ∃ w', (Alpaqa.C16.doCopyAssign s c i k thr).1.wr i = some w' ∧ w'.self = none) ∧
+    ((Alpaqa.C16.doCopyAssign s c i k thr).2 = .excCopy ∨
+      (Alpaqa.C16.doCopyAssign s c i k thr).2 = .ok) ∧
+    (thr = false → ∀ p o, wk.self = some p → ownsReferencedObject wk.size = true →
+      objAt s p = some o →
+      ∃ w' q n, (Alpaqa.C16.doCopyAssign s c i k thr).1.wr i = some w' ∧ w'.self = some q ∧
+        w'.size = wk.size ∧
+        objAt (Alpaqa.C16.doCopyAssign s c i k thr).1 q = some ⟨n, o.val, o.ty⟩ ∧
+        (Alpaqa.C16.doCopyAssign s c i k thr).1.wr k = some wk) := by
   have hki : k ≠ i := fun e => hik e.symm
   have kk := h.wok k wk hk
   -- the allocator propagation step
   have hA : ∃ s0 wi0, (if (c && s.cfg.pocca) = true then
         modW s i fun w => { w with alloc := (getW s k).alloc } else s) = s0 ∧ InvS s0 ∧
       s0.wr i = some wi0 ∧ wi0.self = none ∧ s0.wr k = some wk ∧ s0.blk = s.blk ∧
-      s0.env = s.env ∧ s0.cfg = s.cfg ∧ s0.nblk = s.nblk := by
+      s0.env = s.env ∧ s0.cfg = s.cfg ∧ s0.nblk = s.nblk ∧ (∀ l, objAt s0 l = objAt s l) := by
     split
     · refine ⟨_, { wi with alloc := (getW s k).alloc }, rfl,
-        invS_modW_empty h hi hsi _ ⟨hsi, rfl⟩, ?_, hsi, ?_, ?_, ?_, ?_, ?_⟩
+        invS_modW_empty h hi hsi _ ⟨hsi, rfl⟩, ?_, hsi, ?_, ?_, ?_, ?_, ?_, ?_⟩
       · rw [modW_wr hi]; simp
       · rw [modW_wr hi, upd_ne _ _ hki]; exact hk
       · exact (modW_fields s i _).2.2.2.2.1
-      · exact (modW_fields s i _).2.2.2.2.2.2
+      · exact (modW_fields s i _).2.2.2.2.2.2.1
       · exact (modW_fields s i _).2.2.2.2.2.1
       · exact (modW_fields s i _).2.2.2.1
-    · exact ⟨s, wi, rfl, h, hi, hsi, hk, rfl, rfl, rfl, rfl⟩
-  obtain ⟨s0, wi0, e0, h0, hi0, hsi0, hk0, eb, ee, ec, en⟩ := hA
+      · exact objAt_modW (by intro w; rfl)
+    · exact ⟨s, wi, rfl, h, hi, hsi, hk, rfl, rfl, rfl, rfl, fun _ => rfl⟩
+  obtain ⟨s0, wi0, e0, h0, hi0, hsi0, hk0, eb, ee, ec, en, eo⟩ := hA
   unfold Alpaqa.C16.doCopyAssign
   simp only [getW, hk, Option.getD_some] at e0 ⊢
   rw [e0]
   cases hsk : wk.self with
-  | none => simpa [operatorBool] using h0
+  | none =>
+    simp only [operatorBool, Option.isSome_none, Bool.not_false, ite_true]
+    exact ⟨h0, fun e => by simp at e, Or.inr trivial, fun _ p o hp => by cases hp⟩
   | some p =>
     simp only [operatorBool, Option.isSome_some, Bool.not_true, Bool.false_eq_true, ite_false]
     by_cases ho : ownsReferencedObject wk.size = true
     · simp only [ho, Bool.not_true, Bool.false_eq_true, ite_false]
       cases thr with
-      | true => simpa using (invS_allocThrow h0 hi0 hsi0 wk.size).1
+      | true =>
+        simp only [ite_true]
+        obtain ⟨q1, w', q2, q3, _⟩ := invS_allocThrow h0 hi0 hsi0 wk.size
+        exact ⟨q1, fun _ => ⟨w', q2, q3⟩, Or.inl trivial, fun e => by cases e⟩
       | false =>
         simp only [Bool.false_eq_true, ite_false]
         have hself := wAllocate_self hi0 wk.size
@@ -585,9 +609,17 @@ theorem invS_doCopyAssign {s : State} (h : InvS s) {i k : Nat} {wi wk : Wrapper}
             have := (kk.2.2.2 e hsk).2.1; rw [ho] at this; cases this
         obtain ⟨o, hobj⟩ := hsrc
         simp only [copyConstruct, objAt_wAllocate h0, hobj]
-        exact invS_fill h0 hi0 hsi0 wk.size ho _ _ _
+        obtain ⟨f1, ⟨w', f2, f3, _, f4⟩, f5, f6⟩ := invS_fill h0 hi0 hsi0 wk.size ho o.val o.ty
+          (fun id => .copy id o.id)
+        refine ⟨f1, fun e => by simp at e, Or.inr trivial, ?_⟩
+        intro _ p' o' hp' _ ho'
+        cases hp'
+        rw [← eo, hobj] at ho'; cases ho'
+        exact ⟨w', _, _, f2, f3, f4, f6, by rw [f5 k hki]; exact hk0⟩
     · have ho' : ownsReferencedObject wk.size = false := by simpa using ho
       simp only [ho', Bool.not_false, ite_true]
+      refine ⟨?_, fun e => by simp at e, Or.inr trivial,
+        fun _ p' o' _ ho2 => by cases ho2⟩
       cases p with
       | buf j => have := (kk.2.1 j hsk).2.2.1; rw [ho'] at this; cases this
       | blk b => have := (kk.2.2.1 b hsk).2.1; rw [ho'] at this; cases this
@@ -601,5 +633,14 @@ theorem invS_doCopyAssign {s : State} (h : InvS s) {i k : Nat} {wi wk : Wrapper}
           exact ⟨hb0, ho', by rw [ee]; exact q3⟩
         · intro b hb' hob
           have := owner_points h0 hi0 hb' hob; rw [hsi0] at this; cases this
+
+/-- The wrapper's storage goes away (its `self` is null, its buffer empty). -/
+theorem invS_dropW {s : State} (h : InvS s) {i : Nat} {w : Wrapper} (hw : s.wr i = some w)
+    (hs : w.self = none) :
+    InvS (dropW s i) ∧ (dropW s i).wr i = none ∧ ∀ j, j ≠ i → (dropW s i).wr j = s.wr j := by
+  have hb := (h.wok i w hw).1 hs
+  simp only [dropW, getW, hw, Option.getD_some, hb, hs, Option.isSome_none, Bool.false_eq_true,
+    ite_false]
+  exact ⟨inv_dropSlot h hw hs, by simp, fun j hj => by simp [upd, hj]⟩
 
 end Alpaqa.Proofs.C16
